@@ -168,6 +168,9 @@ def model_verdict(m):
     return ('ok', m['tree'])
 
 
+MAX_TIMEOUTS = 3
+
+
 def run(res, tier, have_driver):
     r = common.rng('C06')
     res.rule = ('(a) valid abstract templates printed in dtml / SSI / EPFS syntax; (b) each with one mutation '
@@ -195,8 +198,16 @@ def run(res, tier, have_driver):
             cases.append(('epfs' if syn == 'epfs' else 'html', 'pre\n' + src + 'post', 'fault:' + label))
     results = []
     reqs = []
+    n_timeouts = 0
     for kind, src, origin in cases:
+        if n_timeouts >= MAX_TIMEOUTS:
+            # every further hang costs TIMEOUT seconds and adds nothing: the witnesses are recorded
+            res.partial.append('stopped compiling generated sources after %d of them did not finish' % n_timeouts)
+            cases = cases[:len(results)]
+            break
         rr = parselib.compile_real(kind, src)
+        if rr['status'] == 'timeout':
+            n_timeouts += 1
         results.append(rr)
         res.evaluations += 1
         res.count('origin=' + origin.split(':')[0])
@@ -246,11 +257,18 @@ def run(res, tier, have_driver):
         sub = [(k, s) for k, s, o in cases if o in ('junk', 'mutated')][:8000 if tier == 'quick' else 200000]
         resp = common.run_driver([{'op': 'tokens', 'syntax': k, 'src': s} for k, s in sub])
         for (k, s), rp in zip(sub, resp):
+            if n_timeouts >= MAX_TIMEOUTS:
+                break
             res.corr_checked += 1
             try:
-                real = scanlib.real_tokens(k, s)
+                st_, real = parselib.with_alarm(lambda: scanlib.real_tokens(k, s))
             except Exception as e:  # noqa
                 res.oracle_fail.append({'case': {'syntax': k, 'src': s}, 'what': 'scanner raised %r' % (e,)})
+                continue
+            if st_ == 'timeout':
+                n_timeouts += 1
+                res.oracle_fail.append({'case': {'syntax': k, 'src': s, 'origin': 'junk'},
+                                        'what': 'the tag scanner did not finish within %d s' % parselib.TIMEOUT})
                 continue
             if rp.get('ok') != real:
                 res.corr_mismatch.append({'case': {'syntax': k, 'src': s}, 'impl': real, 'model': rp.get('ok'),
@@ -270,6 +288,8 @@ def run(res, tier, have_driver):
     sizes = [200, 400, 800] if tier == 'quick' else [500, 1000, 2000, 4000]
     timing = {}
     for name, f in fams.items():
+        if n_timeouts >= MAX_TIMEOUTS:
+            break
         ts = []
         for n in sizes:
             kind, src = f(n)
@@ -279,6 +299,7 @@ def run(res, tier, have_driver):
             ts.append(round(dt, 4))
             res.evaluations += 1
             if rr['status'] == 'timeout':
+                n_timeouts += 1
                 res.oracle_fail.append({'case': {'family': name, 'n': n}, 'what': 'pumped input timed out'})
                 break
         timing[name] = ts
@@ -311,7 +332,7 @@ def search_more(res, tier):
         rr = parselib.compile_real(syn, src)
         for f in oracle(syn, src, rr):
             found.append({'case': {'syntax': syn, 'src': src}, 'what': f})
-        if len(found) > 3:
+        if len(found) >= 3:
             break
     return found
 
